@@ -3,5 +3,5 @@
 set -e
 cd "$(dirname "$0")"
 mkdir -p build out evidence
-make -C harness -j"$(nproc)" all > build/setup-make.log 2>&1 || { tail -40 build/setup-make.log; exit 2; }
+make -C harness -k -j"$(nproc)" all > build/setup-make.log 2>&1 || { tail -40 build/setup-make.log; exit 2; }
 echo "setup ok: $(ls build/hgv_* | tr '\n' ' ')"
